@@ -16,6 +16,10 @@ that fills `$var[col]` null-safely):
 * `C15_rows_spellings` — T15.1 on the pinned tree for all sixteen spellings (`t op c`, `c op t`, BETWEEN, `t > LATEST`,
   `LATEST < t`, `t = LATEST`, `LATEST = t`), specified on the user's own WHERE; `C15_rows_stmt` — per join of a
   statement with several time-series joins;
+* `C15_dbt_limit`, `C15_dbt_rows`, `C15_dbt_reject_inner` — the dbt form (data operand written as a sub-select,
+  `adaptDbt`): LimitOffsetStep = the smaller of the inner and the outer LIMIT; row sets for the sub-select's WHERE plus
+  the moved LATEST conditions; `C15_witness_dbt_outer_ignored` / `C15_witness_dbt_outer`: the rest of the outer query is
+  neither applied nor rejected (KF-C15-6, KF-C15-7);
 * `C15_rows_nullsafe` / `C15_null_partition_empty` — what the executor must provide for NULL partition values;
 * `C15_partitions`, `C15_otf_partial` (all classes except `t = c`, see KF-C15-1 and `C15_witness_1`), `C15_limit`;
 * `C15_reject_flags`, `C15_decision`, `C15_reject_where` (every WHERE, pinned tree), `C15_no_crash`.
@@ -468,6 +472,82 @@ theorem C15_rows_stmt (joins : List (Meta × Query α)) (i : Nat) (m : Meta) (q 
     (planStmt Cfg.pinned joins)[i]? = some (planTS Cfg.pinned m q) ∧ RowsSpecL Cfg.pinned m q tl w := by
   refine ⟨?_, C15_rows_spellings m q tl w hq hp hd⟩
   simp [planStmt, hi]
+
+/-! ## the dbt form: data operand written as a sub-select (`adapt_dbt_query`) -/
+
+/-- whenever a plan is produced its LimitOffsetStep carries the LIMIT of the query that was planned -/
+theorem planTS_limit (cfg : Cfg) (m : Meta) (q : Query α) (pl : Plan α) (h : planTS cfg m q = .ok pl) :
+    pl.limitStep = q.limit := by
+  unfold planTS at h
+  split at h
+  · cases h
+  · split at h
+    · cases h
+    · split at h
+      · cases h
+      · split at h
+        · cases h
+        · cases h
+        · injection h with h; subst h; rfl
+        · injection h with h; subst h; rfl
+
+theorem minLimit_some (a b : Nat) : minLimit (some a) (some b) = some (min a b) := by
+  simp only [minLimit]
+  split
+  · rename_i h; congr 1; omega
+  · rename_i h; congr 1; omega
+
+theorem minLimit_none_left (b : Option Nat) : minLimit none b = b := by cases b <;> rfl
+theorem minLimit_none_right (a : Option Nat) : minLimit a none = a := rfl
+
+/-- **LIMIT in the dbt form**: the LimitOffsetStep after the join carries the smaller of the sub-select's LIMIT and
+the outer LIMIT (the one that is present if only one is; none if none is), and no fetch select carries either -/
+theorem C15_dbt_limit (cfg : Cfg) (m : Meta) (outer inner : Query α) (pl : Plan α)
+    (h : planDbt cfg m outer inner = .ok pl) :
+    pl.limitStep = minLimit inner.limit outer.limit ∧
+    (∀ a b, inner.limit = some a → outer.limit = some b → pl.limitStep = some (min a b)) ∧
+    (inner.limit = none → pl.limitStep = outer.limit) ∧ (outer.limit = none → pl.limitStep = inner.limit) := by
+  have h0 : pl.limitStep = minLimit inner.limit outer.limit := planTS_limit cfg m _ pl h
+  refine ⟨h0, ?_, ?_, ?_⟩
+  · intro a b ha hb; rw [h0, ha, hb, minLimit_some]
+  · intro ha; rw [h0, ha, minLimit_none_left]
+  · intro hb; rw [h0, hb, minLimit_none_right]
+
+/-- **T15.1 in the dbt form**: when the sub-select's WHERE together with the LATEST conditions moved in from the
+outer WHERE is in the domain, the row-set property holds for it -/
+theorem C15_dbt_rows (cfg : Cfg) (m : Meta) (outer inner : Query α) (tc : Option (TC α))
+    (hp : plain inner) (hd : Dom m.nG tc (adaptDbt outer inner).whereC = true) :
+    RowsSpec cfg m (adaptDbt outer inner) tc :=
+  C15_rows cfg m (adaptDbt outer inner) tc hp hd
+
+/-- ORDER BY / GROUP BY / HAVING / OFFSET of the sub-select ⇒ PlanningException -/
+theorem C15_dbt_reject_inner (cfg : Cfg) (m : Meta) (outer inner : Query α)
+    (h : inner.orderBy = true ∨ inner.groupBy = true ∨ inner.having = true ∨ inner.offset = true) :
+    planDbt cfg m outer inner = .planning :=
+  C15_reject_flags cfg m (adaptDbt outer inner) h
+
+/-- KF-C15-6 / KF-C15-7 (witness, all inputs): of the outer query only the LATEST conditions and the LIMIT
+matter — its other WHERE conditions, ORDER BY, GROUP BY, HAVING and OFFSET are neither applied nor rejected -/
+theorem C15_witness_dbt_outer_ignored (cfg : Cfg) (m : Meta) (outer outer' inner : Query α)
+    (hl : outer.limit = outer'.limit)
+    (hw : outerLatest outer = outerLatest outer') :
+    planDbt cfg m outer inner = planDbt cfg m outer' inner := by
+  simp only [planDbt, adaptDbt, hl, hw]
+
+/-- … e.g. an outer `ORDER BY`, and an outer filter on a foreign column, are accepted -/
+theorem C15_witness_dbt_outer :
+    planDbt (α := Int) Cfg.pinned ⟨1, 3⟩ { whereC := some (.bin .eq (.ident .other) (.const 3)), orderBy := true }
+        { whereC := some (TC.gt 5).toW }
+      = planTS (α := Int) Cfg.pinned ⟨1, 3⟩ { whereC := some (TC.gt 5).toW } := by decide
+
+/-- the usual dbt query: partition filter inside, `t > LATEST` outside: the plan is the window query of
+`g = 1 AND t > LATEST` -/
+example :
+    planDbt (α := Int) Cfg.pinned ⟨1, 3⟩ { whereC := some (TC.gtLatest).toW, limit := some 9 }
+        { whereC := some (.bin .eq (.ident (.grp 0)) (.const 1)), limit := some 4 }
+      = planTS (α := Int) Cfg.pinned ⟨1, 3⟩
+          { whereC := some (.bin .and (.bin .eq (.ident (.grp 0)) (.const 1)) (TC.gtLatest).toW), limit := some 4 } := by
+  decide
 
 /-! ## NULL partition values: what the executor has to provide -/
 
